@@ -12,7 +12,7 @@ NEEDS_C = True
 LEVEL = 'exploration'
 EXHAUSTIVE = True
 EXHAUSTIVE_NOTE = ('complete for the first/second/fourth opcode bytes of all 7 tables x 8 additional-opcode settings x '
-                   '4 addresses (0x8000 and the three next to the 64K boundary); operand bytes are sampled (3 fills)')
+                   '4 addresses (0x8000 and the three next to the 64K boundary); operand bytes are sampled (3 fixed fills + seed-dependent ones; DD/FD-led prefix chains added)')
 RULE = ('every opcode sequence (256 unprefixed, CB xx, ED xx, DD xx, FD xx, DDCB d xx, FDCB d xx) x operand fills x '
         'Opcodes settings x addresses {0x8000,65533,65534,65535}; a case is one (sequence, fill, address); it is '
         'non-trivial when at least three decoders were compared on it; distinct by (sequence, fill, address)')
@@ -110,7 +110,19 @@ def sim_observe(sim, kind, mem_bytes, addr, flags, bval, tracer):
 def run(shard, spec):
     from skoolkit import opcodes as opc, traceutils, z80
     from skoolkit.disassembler import Disassembler
+    from skoolkit.components import get_comment_generator
+    from skoolkit.snactl import Instruction as CtlInstruction
+    cg = get_comment_generator()
     seqs = list(sequences())[spec['lo']:spec['hi']]
+    rng = shard.rng('fills')
+    fills = list(FILLS) + [tuple(rng.randrange(256) for _ in range(3)) for _ in range(1 if shard.tier == 'quick' else 12)]
+    # prefix chains and prefix-before-prefix sequences (thorough: all pairs)
+    if spec['lo'] == 0:
+        pf = (0xDD, 0xFD, 0xED, 0xCB)
+        for a in (0xDD, 0xFD):
+            for b in pf:
+                for c3 in ((0x21, 0x00, 0x7E, 0xCB, 0xE9, 0x36) if shard.tier == 'quick' else range(256)):
+                    seqs.append(('chain', (a, b, c3)))
     # Disassemblers per (opcodes, wrap) share one snapshot list
     snap = [0] * 65536
     dis = {}
@@ -130,7 +142,7 @@ def run(shard, spec):
         shard.violation(what, {'seq': [x for x in seq], 'fill': list(fill), 'addr': addr, 'extra': extra}, finding)
 
     for table, seq in seqs:
-        for fill in FILLS:
+        for fill in fills:
             for addr in ADDRESSES:
                 shard.inc('cases')
                 b = place(snap, addr, seq, fill)
@@ -166,6 +178,13 @@ def run(shard, spec):
                 except Exception as e:
                     viol('opcodes.decode raised %r' % (e,), b, fill, addr)
                     dlen = None
+                # the comment generator's tables: no lookup may fail for an instruction the control-file generator decodes
+                if dlen is not None and not d[4].startswith('DEFB') and addr + dlen <= 65536:
+                    try:
+                        cg.get_comment(CtlInstruction(addr, snap[addr:addr + dlen]))
+                        shard.inc('eval:comment_generator')
+                    except Exception as e:
+                        viol('comment generator raised %r for %s (%s)' % (e, d[4], bytes(b[:dlen]).hex()), b, fill, addr)
                 # The Opcodes option changes mnemonics only, never lengths
                 dl = set(lengths.values())
                 if len(dl) > 1 and addr + 4 <= 65536:
